@@ -99,6 +99,12 @@ package rules
 //   after an element of Results was found equal to the key (c02MemberHelper); correct variants (index
 //   search with equality, equality loop, flag loop, StrInSlice wrapper, guard clauses per pipeline in
 //   helpers, `&&` guard) stay silent.
+//   Third robustness iteration (r9..r12, all silent): Handle delegating to the before/after handler with
+//   (nil, nil); constructor writes of activeNs on a fresh literal; recover closure held in a local
+//   (InlineClosures); reverse node loop as `n := len; n > 0; n--` with flow[n-1]; GlobalFilter builders
+//   deduplicated into one helper parameterised by (spec, &holder) — holder ↔ spec key read per call site,
+//   build rule follows the parameters through inlined calls (OnInline tags); GlobalFilter's Validate as
+//   a loop over a literal table of the two specs (c02ValidateGlobalTable).
 //   P5 END test precomputed into a bool before the skip test but acted on after it;
 //   P6 skip and END tests as the cases of a tagless switch (in that order), END by early return.
 
@@ -1611,7 +1617,26 @@ func c02Namespace(c *core.Ctx, a *c02Anchors, useNS string) {
 				if sel, ok := ast.Unparen(l).(*ast.SelectorExpr); ok {
 					if s := pkg.TypesInfo.Selections[sel]; s != nil && s.Obj() == actF {
 						writers++
-						if name != "pkg/context.(Context).UseNamespace" {
+						// a constructor initialising the value it has just created is not a switch of namespace
+						fresh := false
+						if id, ok := ast.Unparen(sel.X).(*ast.Ident); ok {
+							dd := c02NewDefs(f)
+							if o := c02Obj(f, id); o != nil && dd.n[o] == 1 && dd.rhs[o] != nil {
+								r := ast.Unparen(dd.rhs[o])
+								if u, ok := r.(*ast.UnaryExpr); ok && u.Op == token.AND {
+									r = ast.Unparen(u.X)
+								}
+								if _, ok := r.(*ast.CompositeLit); ok {
+									fresh = true
+								}
+								if call, ok := r.(*ast.CallExpr); ok {
+									if b, ok := f.Callee(call).(*types.Builtin); ok && b.Name() == "new" {
+										fresh = true
+									}
+								}
+							}
+						}
+						if name != "pkg/context.(Context).UseNamespace" && !fresh {
 							c.Violate("R-C02-1", name+"|write of Context.activeNs", pos(c, as), "Context.activeNs is written outside UseNamespace: the active namespace can change behind the pipeline's back")
 						}
 					}
